@@ -109,9 +109,44 @@ def run(ctx):
     ctx.require_min(R, 110)
     rule_tpi(ctx)
     rule_shift_direction(ctx)
+    rule_t3w_side_base(ctx)
     from rules import _lints
     _lints.dup_sweep(ctx, "DUP-OPERAND", ["pandapower.pypower.makeYbus", "pandapower.pf.makeYbus_numba", "pandapower.build_branch",
                                          "pandapower.results_branch", "pandapower.pypower.makeBdc"], minimum=10)
+    RDC = "DC-CACHE"
+    ctx.rule(RDC, "recycled DC power flow: when the phase shift changed, every cached key that the unchanged-shift branch reads (Pbusinj, "
+                  "Pfinj) and the compared key (shift) are refreshed; the full build stores all keys")
+    _lints.dc_cache_refresh(ctx, RDC)
+
+
+def rule_t3w_side_base(ctx):
+    """three-winding transformer: the side-based short-circuit voltages vk_hv (hv-mv), vk_mv (mv-lv), vk_lv (lv-hv) are related to the
+    smaller rated power of the two windings involved before the star conversion"""
+    import ast
+    from ppsa.astutil import norm
+    R = "T3W-SIDE-BASE"
+    ctx.rule(R, "build_branch.z_br_to_bus_vector divides row k of the side-based impedances by min over the two windings of pair k - "
+                "(hv,mv), (mv,lv), (hv,lv) - and multiplies by the hv rating: three instances of one formula")
+    fi = ctx.repo.func("pandapower.build_branch:z_br_to_bus_vector")
+    ret = next((x.value for x in ast.walk(fi.node) if isinstance(x, ast.Return)), None)
+    arr = next((x for x in ast.walk(ret) if isinstance(x, ast.Call) and norm(x.func, 20).endswith("array") and x.args and isinstance(x.args[0], (ast.List, ast.Tuple))), None) if ret is not None else None
+    if arr is None or len(arr.args[0].elts) != 3:
+        ctx.fail("z_br_to_bus_vector: np.array([...three rows...]) not found")
+    want = {0: "0,1", 1: "1,2", 2: "0,2"}
+    for k, e in enumerate(arr.args[0].elts):
+        t = norm(e, 120).replace(" ", "")
+        ok = False
+        if isinstance(e, ast.BinOp) and isinstance(e.op, ast.Div):
+            num, den = norm(e.left, 40).replace(" ", ""), e.right
+            idx = {c.value for c in ast.walk(den) if isinstance(c, ast.Constant) and isinstance(c.value, int)} - ({0} if "axis=0" in norm(den, 80).replace(" ", "") and want[k] != "0,1" and want[k] != "0,2" else set())
+            # integer constants of the divisor: the two winding rows (axis=0 contributes a literal 0 which is also a winding row for pairs with hv)
+            pair = {int(x) for x in want[k].split(",")}
+            ok = num.startswith(f"z[{k},") and "min" in norm(den, 80) and "sn" in norm(den, 80) and (idx == pair or idx == pair | {0})
+        ctx.ob(R, f"pandapower.build_branch::z_br_to_bus_vector::row{k}", ok,
+               f"row {k}: {t}" if ok else f"row {k} is `{t}`, expected z[{k},:] / min(sn of windings {want[k]}): a winding pair whose first rating is "
+               "not the smaller one gets the wrong base", fi.loc(e))
+    t = norm(ret, 400).replace(" ", "")
+    ctx.ob(R, "pandapower.build_branch::z_br_to_bus_vector::hv-base", t.startswith("sn[0,:]*np.array("), "result related to the hv rating sn[0]", fi.loc())
 
 
 def variants(repo):
@@ -120,6 +155,12 @@ def variants(repo):
     bu = "pandapower/build_bus.py"
     V = Variant
     return [
+        V("recycled dc run keeps the old branch injection", "pandapower/pf/run_dc_pf.py", replace_once("            ppci['internal']['Pfinj'] = Pfinj\n    else:", "    else:"), "DC-CACHE"),
+        V("recycled dc run forgets the compared shift", "pandapower/pf/run_dc_pf.py", replace_once("            ppci['internal']['shift'] = branch[:, SHIFT]\n            ppci['internal']['Pbusinj'] = Pbusinj\n            ppci['internal']['Pfinj'] = Pfinj\n", "            ppci['internal'].update(Pbusinj=Pbusinj, Pfinj=Pfinj)\n"), "DC-CACHE"),
+        V("twin: cache refreshed through update()", "pandapower/pf/run_dc_pf.py", replace_once("            ppci['internal']['shift'] = branch[:, SHIFT]\n            ppci['internal']['Pbusinj'] = Pbusinj\n            ppci['internal']['Pfinj'] = Pfinj\n", "            ppci['internal'].update(shift=branch[:, SHIFT], Pbusinj=Pbusinj, Pfinj=Pfinj)\n"), None),
+        V("trafo3w side base assumes hv is the largest winding", bb, replace_once("z[0, :] / sn[[0, 1], :].min(axis=0)", "z[0, :] / sn[1, :]"), "T3W-SIDE-BASE"),
+        V("trafo3w lv-hv pair uses mv", bb, replace_once("z[2, :] / sn[[0, 2], :].min(axis=0)", "z[2, :] / sn[[1, 2], :].min(axis=0)"), "T3W-SIDE-BASE"),
+        V("twin: side base with np.minimum", bb, replace_once("z[1, :] /\n                                sn[[1, 2], :].min(axis=0)", "z[1, :] /\n                                np.minimum(sn[1, :], sn[2, :])"), None),
         V("magnetising branch ignores the lv tap ratio", bb, in_function("_calc_y_from_dataframe", lambda s: s.replace(" / np.square(vn_trafo_lv / vn_lv_kv)", "")), "y-from-df"),
         V("ideal phase shifter percent form without direction", bb, in_function("_calc_tap_from_dataframe", replace_once("(direction * 2 * np.rad2deg(np.arcsin(tap_diff[mask_ideal] *", "(2 * np.rad2deg(np.arcsin(tap_diff[mask_ideal] *")), "SHIFT-DIRECTION"),
         V("wye delta only for rows with susceptance", bb, in_function("_wye_delta", replace_once("tidx = (g != 0) | (b != 0)", "tidx = b != 0")), "converted-rows"),
